@@ -56,9 +56,13 @@ inductive Obj where
   | none | val (v : Nat) | exc (e : Err)
   deriving Repr, DecidableEq
 
-/-- how the target ends -/
+/-- how the target ends.  `retU` / `raiseU`: it returns a value / raises an exception that cannot
+    be pickled (a lambda, an instance of a local class): `send` then raises in the child, which
+    ends by itself with status 1 before both messages are sent (for a `Thread` these are ordinary
+    outcomes: nothing has to be pickled) -/
 inductive Outcome where
   | ret (v : Obj) | raise (e : Nat) | exit (c : Code)
+  | retU (v : Nat) | raiseU (e : Nat)
   deriving Repr, DecidableEq
 
 /-- a resolved future -/
@@ -77,20 +81,42 @@ def firstMsg : Outcome → Obj
   | .ret v => v
   | .raise _ => .none
   | .exit _ => .none
+  | .retU _ => .none        -- never sent
+  | .raiseU _ => .none
+
+/-- can the first / second message be pickled -/
+def canSend1 : Outcome → Bool
+  | .retU _ => false
+  | _ => true
+
+def canSend2 : Outcome → Bool
+  | .raiseU _ => false
+  | _ => true
+
+/-- how many messages a child that is not killed gets out -/
+def sentTotal : Outcome → Nat
+  | .retU _ => 0
+  | .raiseU _ => 1
+  | _ => 2
 
 /-- second pipe message (the error) -/
 def secondMsg : Outcome → Obj
   | .ret _ => .none
   | .raise e => .exc (.child e)
   | .exit c => if c.clean then .none else .exc (.sysExit c)
+  | .retU _ => .none
+  | .raiseU _ => .none      -- never sent
 
-/-- `_mpservice_exitcode_`, returned by `_bootstrap` -/
+/-- `_mpservice_exitcode_`, returned by `_bootstrap`; for the unpicklable outcomes the status with
+    which the interpreter ends after the exception that escaped `run()` -/
 def mpExit : Outcome → Int
   | .ret _ => 0
   | .raise _ => 1
   | .exit .none => 0
   | .exit (.int k) => k
   | .exit (.str _) => 1
+  | .retU _ => 1
+  | .raiseU _ => 1
 
 /-- exit status the OS reports for `sys.exit(x)` -/
 def osStatus (x : Int) : Int := x % 256
@@ -99,8 +125,11 @@ def osStatus (x : Int) : Int := x % 256
 def resolveWith (result error : Obj) : Fut :=
   if error = .none then .ok result else .err error
 
-/-- the target's own verdict: both messages arrived -/
-def ownFut (o : Outcome) : Fut := resolveWith (firstMsg o) (secondMsg o)
+/-- the target's own verdict: both messages arrived — or, when the outcome cannot be pickled, the
+    child ended by itself with status 1 before that: the collector's EOF branch takes `-1` for a
+    signal number that is not 15 and reports `OSError(-1)` -/
+def ownFut (o : Outcome) : Fut :=
+  if sentTotal o < 2 then .err (.exc (.osErr (-1))) else resolveWith (firstMsg o) (secondMsg o)
 
 inductive Phase where
   | before | during | between | after
@@ -163,7 +192,7 @@ structure State where
   deriving Repr, DecidableEq
 
 inductive Act where
-  | cBoot | cTargetEnd | cSend1 | cSend2 | cExit
+  | cBoot | cTargetEnd | cSend1 | cSend2 | cSendFail | cExit
   | kill (sig : Nat)
   | kRecv | kEof | kEofCode | kSentinel | kPutEnd | logStop | kJoinLog | kResolve
   | ask (a : Acc)
@@ -209,12 +238,17 @@ def step (c : Cfg) (s : State) : Act → Option State
   | .cBoot => if s.cpc = .boot then some { s with cpc := .target } else none
   | .cTargetEnd => if s.cpc = .target then some { s with cpc := .send1 } else none
   | .cSend1 =>
-    if s.cpc = .send1 then
+    if s.cpc = .send1 ∧ canSend1 c.outcome = true then
       some { s with cpc := .send2, sent := s.sent + 1, pipe := s.pipe ++ [firstMsg c.outcome] }
     else none
   | .cSend2 =>
-    if s.cpc = .send2 then
+    if s.cpc = .send2 ∧ canSend2 c.outcome = true then
       some { s with cpc := .closing, sent := s.sent + 1, pipe := s.pipe ++ [secondMsg c.outcome] }
+    else none
+  | .cSendFail =>
+    -- `send` raises (pickling error); the exception leaves `run()`, the interpreter ends with status 1
+    if (s.cpc = .send1 ∧ canSend1 c.outcome = false) ∨ (s.cpc = .send2 ∧ canSend2 c.outcome = false) then
+      some { s with cpc := .exited, wclosed := true, exitcode := some 1 }
     else none
   | .cExit =>
     if s.cpc = .closing then
@@ -322,6 +356,8 @@ def threadFut : Outcome → Fut
   | .ret v => .ok v
   | .raise e => .err (.exc (.child e))
   | .exit c => if c.clean then .ok .none else .err (.exc (.sysExit c))
+  | .retU v => .ok (.val v)
+  | .raiseU e => .err (.exc (.child e))
 
 def canAnswer (a : Acc) (s : State) : Bool :=
   match a with
